@@ -974,3 +974,79 @@ def _random_index(prog, env, tables, rng):
         df.index = pd.Index(idx, dtype="int64", name=df.index.name)
         out[s.name] = (df, present)
     return out
+
+
+# ---------------------------------------------------------------------------------------------- C10 / C17: two program texts
+
+def check_two_programs(prog: Program, other_text: str, label: str, mk_plan=None, env_extra=None) -> list[Result]:
+    """obligation: `other_text` (same sources) computes the same result as prog.text, up to row order and partition layout"""
+    init()
+    from symdf.core import Unsupported, StructuralError
+    from symdf import equiv, conc
+    from symdf.interp import GraphError
+    from dask_expr._expr import optimize
+
+    mk_plan = mk_plan or (lambda e: optimize(e, fuse=True))
+    other = Program(other_text, prog.srcs, prog.ordered, prog.check_index, prog.family, prog.note, dict(prog.env_globals, **(env_extra or {})))
+    name = f"{prog.text} == {other_text} @ {prog.name.split(' @ ')[-1]}|{label}"
+    sig = name
+    env, frames = make_env(prog)
+
+    def replay(tables):
+        fr, present = _frames_of(tables)
+        try:
+            a = concrete(mk_plan(prog.build(make_collections(prog, fr, present)).expr))
+        except Exception as e:
+            return None, f"default query fails concretely: {type(e).__name__}: {e}"
+        try:
+            b = concrete(mk_plan(other.build(make_collections(other, fr, present)).expr))
+        except Exception as e:
+            return True, f"variant raises {type(e).__name__}: {str(e)[:200]} while the default computes"
+        same, msg = conc.same_pandas(a, b, prog.ordered, prog.check_index)
+        return (not same), msg
+
+    try:
+        colls = make_collections(prog, frames)
+        a_plan = mk_plan(prog.build(colls).expr)
+    except Exception as e:
+        return [Result(name, SKIPPED, "", f"default query does not build: {type(e).__name__}: {str(e)[:200]}")]
+    try:
+        b_plan = mk_plan(other.build(make_collections(other, frames)).expr)
+    except Exception as e:
+        differs, msg = replay(conc.tables_from_model(env, None, 1))
+        st = VIOLATION if differs else (SKIPPED if differs is None else HARNESS_ERROR)
+        return [Result(name, st, sig, f"variant does not plan: {type(e).__name__}: {str(e)[:200]}; replay: {msg}", {"engine": "P", "program": name, "stage": label})]
+    try:
+        a_paths, a_it = symexec(a_plan, env)
+    except Unsupported as e:
+        return [Result(name, SKIPPED, "", f"unsupported in default plan: {e}", extra={"unsupported": str(e)})]
+    except (StructuralError, GraphError) as e:
+        return [Result(name, SKIPPED, "", f"default plan fails structurally: {e}")]
+    try:
+        b_paths, b_it = symexec(b_plan, env)
+    except Unsupported as e:
+        differs, msg = replay(conc.tables_from_model(env, None, 1))
+        if differs and "raises" in msg:
+            return [Result(name, VIOLATION, sig, f"variant plan fails for every input ({e}); replay: {msg}", {"engine": "P", "program": name, "stage": label})]
+        return [Result(name, SKIPPED, "", f"unsupported in variant plan: {e}", extra={"unsupported": str(e)})]
+    except (StructuralError, GraphError) as e:
+        differs, msg = replay(conc.tables_from_model(env, None, 1))
+        return [Result(name, VIOLATION if differs else HARNESS_ERROR, sig, f"variant plan fails for every input: {e}; replay: {msg}", {"engine": "P", "program": name, "stage": label})]
+    global replay_stage
+    saved = replay_stage
+    try:
+        replay_stage = lambda prog_, tables, stage, ref_stage="unopt": replay(tables)  # noqa: E731
+        r = _compare_paths(prog, env, name, sig, label, a_paths, b_paths, time.time())
+    finally:
+        replay_stage = saved
+    r.extra["callables"] = sorted(set(a_it.calls) | set(b_it.calls))[:60] if a_it and b_it else []
+    r.extra["plans_differ"] = a_plan._name != b_plan._name
+    classes = set()
+    for n in b_plan.walk():
+        classes.add(type(n).__name__)
+        for inner in (getattr(n, "exprs", None) or []) if type(n).__name__ == "Fused" else []:
+            classes.add(type(inner).__name__)
+    r.extra["plan_classes"] = sorted(classes)
+    if a_plan._name == b_plan._name:
+        r.extra["trivial"] = True
+    return [r]
